@@ -32,6 +32,10 @@ CLAIMS = {
  'C19': ("Contract proof of the multi-transport routing kernel: the monitor invariant of Transport.mu (selected id is a member, every member non-nil) is established by NewTransport/validateConfig (non-member InitialTransportID rejected), "
          "preserved by transportIDLoop for every id the scheduler may emit (members, non-members, the empty id), and therefore Write/AsUnreliable/NegotiationParams cannot dereference a nil member; LastUsedPoller.Get and RoundRobinPoller.Get are panic-free and RoundRobinPoller stays in bounds and returns a listed id.",
          "NOT decided: 'every message read from any member is returned exactly once' (goroutine fan-in over channels), Close-closes-every-member and the counter sums (range-over-map with external calls; not yet under contract). Precondition: no nil transport in the configured map.", "6/C19"),
+ 'C06': ("Contract proof of request-id generation and reply routing in wire.ClientConn: IDGenerator.Next returns the previous value and advances by 2 mod 2^32 (even ids stay even; composition lemma: two successive ids differ); "
+         "sendRequest registers a fresh reply channel under exactly its request's id before writing (monitor invariant of ClientConn.mu: table[id] is a channel keyed id), readRequestLoop sends a response only on the channel registered under that response's id, "
+         "deletes exactly that entry and holds no lock across iterations (channel invariant: only a message bearing the key is ever sent on a keyed channel; keyed channels are never closed), hence sendRequest returns only a response bearing its own request id, for every table state and every order of arrivals.",
+         "NOT decided: that a response arrives (liveness), FIFO/buffering of channels, uniqueness of ids beyond 2^31 outstanding draws, the callers that draw an id immediately before use. Ghost keys are fixed at the make(chan) site; typeassume: the inbox channel msgRequestCh is not a keyed reply channel.", "6/C06"),
 }
 NA_REASON_DEFAULT = "check not built yet (framework under construction; see DESIGN.md section 8)"
 NA = {}
